@@ -125,6 +125,19 @@ func c04Signers() []c04Signer {
 			ca := world.Issue(p.Root, world.CertOpt{CN: "ca no crlsign " + kind, IsCA: true, KeyKind: kind, KeyIdx: 6, Serial: big.NewInt(34), KeyUsage: x509.KeyUsageCertSign | x509.KeyUsageDigitalSignature})
 			return ca, []*world.Ident{ca, p.Root}, nil, ca
 		}},
+		{"upper-CA-of-the-chain", true, func(kind string) (*world.Ident, []*world.Ident, []*x509.Certificate, *world.Ident) {
+			// another CA of the presented chain (the one above the issuing CA, entitled to sign CRLs of its own) signs a CRL in the issuing CA's
+			// name: entitled only if the CRL's authority key identifier really identifies it
+			upper := world.Issue(p.Root, world.CertOpt{CN: "upper CA " + kind, IsCA: true, KeyKind: kind, KeyIdx: 6, Serial: big.NewInt(35)})
+			sub := world.Issue(upper, world.CertOpt{CN: "sub CA " + kind, IsCA: true, KeyKind: kind, KeyIdx: 7, Serial: big.NewInt(36)})
+			return sub, []*world.Ident{sub, upper, p.Root}, nil, upper
+		}},
+		{"other-CA-configured-as-trusted-signer", true, func(kind string) (*world.Ident, []*world.Ident, []*x509.Certificate, *world.Ident) {
+			// a configured trusted signer with another name signs a CRL in the issuing CA's name
+			ca := c04CA(kind)
+			oc := world.Issue(nil, world.CertOpt{CN: "other trusted CA " + kind, IsCA: true, KeyKind: kind, KeyIdx: 4, Serial: big.NewInt(37)})
+			return ca, []*world.Ident{ca, p.Root}, []*x509.Certificate{oc.Cert}, oc
+		}},
 		{"stranger-configured-nowhere-in-chain-only", false, func(kind string) (*world.Ident, []*world.Ident, []*x509.Certificate, *world.Ident) {
 			// another CA of the same chain (the root) signs the issuing CA's CRL: not the issuer named by the CRL
 			ca := c04CA(kind)
@@ -133,7 +146,7 @@ func c04Signers() []c04Signer {
 	}
 }
 
-var c04AKIForms = []string{"absent", "keyId", "issuer+serial", "keyId+issuer+serial", "keyId=end-entity-SKI", "keyId=signer-SKI"}
+var c04AKIForms = []string{"absent", "keyId", "issuer+serial", "keyId+issuer+serial", "keyId=end-entity-SKI", "keyId=signer-SKI", "uri-issuer+signer-serial", "dns-issuer+signer-serial"}
 
 type c04Case struct {
 	Alg    world.SigAlg
@@ -208,6 +221,15 @@ func c04Doc(c c04Case) (doc []byte, leaf *world.Ident, chain [][]*x509.Certifica
 		akiMatchesSigner = signer == leaf
 	case "keyId=signer-SKI":
 		exts = append(exts, world.AKIExt(signer.Cert.SubjectKeyId, nil, nil))
+	case "uri-issuer+signer-serial", "dns-issuer+signer-serial":
+		// authorityCertIssuer is not a directory name: it names no certificate issuer, so nothing but the serial number
+		// points at the signer. The signer is entitled only if it carries the CRL issuer's name anyway.
+		if strings.HasPrefix(c04AKIForms[c.AKI], "uri") {
+			exts = append(exts, world.AKIExtGeneralName(6, "http://ca.test/issuer", signer.Cert.SerialNumber))
+		} else {
+			exts = append(exts, world.AKIExtGeneralName(2, "ca.test", signer.Cert.SerialNumber))
+		}
+		akiMatchesSigner = string(signer.Cert.RawSubject) == string(issuer.Cert.RawSubject)
 	}
 	spec.Exts = exts
 	doc = spec.DER()
@@ -305,6 +327,15 @@ func c04Run(c c04Case) (inForce bool, probe Verdict, entitled bool, note string)
 	return
 }
 
+func c04Supported(a world.SigAlg) bool {
+	for _, s := range world.SupportedAlgs {
+		if s.Name == a.Name {
+			return true
+		}
+	}
+	return false
+}
+
 // RunC04 is the entry point of the C04 check.
 func RunC04(tier string, args []string) int {
 	chk := fw.NewCheck("C04", tier, "exploration")
@@ -340,7 +371,7 @@ func RunC04(tier string, args []string) int {
 				feature = "bitflip-in-signed-region alg=" + c.Alg.KeyKind
 			} else if c.BadSig {
 				feature = "bad-signature"
-			} else if c04Signers()[c.Signer].Entitled {
+			} else if c04Signers()[c.Signer].Entitled && !c04Supported(c.Alg) {
 				feature = "alg=" + c.Alg.Name
 			}
 			chk.Violation("C04|unauthentic-in-force|"+feature,
